@@ -438,17 +438,27 @@ Proof.
   intros H. apply orb_true_iff in H as [H|H]; [left; apply digit_range, H|right; apply N.eqb_eq, H].
 Qed.
 
-(* what may follow a non-punctuator token in a stripped text: nothing, the separating space or a
-   one-character punctuator *)
+(* what may follow a non-punctuator token without changing it: nothing, an ignored character (the
+   separating space of a stripped text; space, comma, line feed in printed text) or a one-character
+   punctuator *)
 Definition follow_ok (r : list N) : Prop :=
-  match r with [] => True | c :: _ => c = 32 \/ In c punct_chars end.
+  match r with [] => True | c :: _ => is_ignored_char c = true \/ In c punct_chars end.
+
+Lemma ignored_cases c : is_ignored_char c = true ->
+  c = 32 \/ c = 9 \/ c = 44 \/ c = 65279 \/ c = LF \/ c = CR.
+Proof.
+  unfold is_ignored_char, is_ws_ignored. intros H.
+  repeat (apply orb_true_iff in H as [H|H]); apply N.eqb_eq in H; auto 10.
+Qed.
 
 Lemma follow_ok_facts r : follow_ok r ->
   peek_is is_name_continue r = false /\ numstop r /\ peek_is (N.eqb 34) r = false.
 Proof.
   destruct r as [|c t]; [repeat split; reflexivity|]. cbn [follow_ok peek_is]. unfold numstop. cbn [peek_is].
-  intros [->|H]; [repeat split; reflexivity|].
-  apply punct_char_facts in H. tauto.
+  intros [H|H].
+  - apply ignored_cases in H. unfold LF, CR in H.
+    destruct H as [->|[->|[->|[->|[->| ->]]]]]; repeat split; reflexivity.
+  - apply punct_char_facts in H. tauto.
 Qed.
 
 (* ================================================================== *)
